@@ -222,8 +222,6 @@ class QuotaDistributor:
             sum(votes.values()), n_seats
         )
         selected = {}
-        n_overshot = 0
-        overshot_candidates = []
         for candidate, n_votes in votes.items():
             n_prev = prev_gains.get(candidate, 0)
             fulfills_quota = (
@@ -231,30 +229,12 @@ class QuotaDistributor:
                 or self.accept_equal and n_votes == quota_val
             )
             if fulfills_quota:
-                n_add_seats = int(Fraction(n_votes, quota_val)) - n_prev
+                n_add_seats = min(
+                    int(Fraction(n_votes, quota_val)),
+                    max_seats.get(candidate, INF)
+                ) - n_prev
                 if n_add_seats > 0:
-                    cand_max_seats = max_seats.get(candidate, n_seats)
-                    if n_add_seats + n_prev > cand_max_seats:
-                        overshoot = n_add_seats + n_prev
-                        n_add_seats -= overshoot
-                        n_overshot += overshoot
-                        overshot_candidates.append(candidate)
                     selected[candidate] = n_add_seats
-        if n_overshot:
-            remaining_votes = {
-                cand: n_votes for cand, n_votes in votes.items()
-                if cand not in overshot_candidates
-            }
-            total_gained = {
-                cand: selected.get(cand, 0) + prev_gains.get(cand, 0)
-                for cand in votes
-            }
-            votelib.util.add_dict_to_dict(selected, self.evaluate(
-                remaining_votes,
-                n_overshot,
-                prev_gains=total_gained,
-                max_seats=max_seats
-            ))
         total_awarded = sum(selected.values()) + sum(prev_gains.values())
         if total_awarded > n_seats:
             if self.on_overaward == 'ignore':
@@ -367,7 +347,7 @@ class LargestRemainder:
         """
         # first, assign the non-remainder seats for those over the quota
         quota_elected = self._quota_evaluator.evaluate(
-            votes, n_seats, prev_gains
+            votes, n_seats, prev_gains, max_seats
         )
         quota_number = self.quota_function(
             sum(votes.values()), n_seats
